@@ -181,7 +181,7 @@ func (bc *bundleCase) canonical() (outputs, error) {
 
 func allBundles() []*bundleCase {
 	var out []*bundleCase
-	for _, c := range gj5s.DeterminismBundles() {
+	for _, c := range append(gj5s.DeterminismBundles(), gj5s.StaleGeneratedBundles()...) {
 		out = append(out, prepare(c))
 	}
 	// hand-written proto files in the mix
